@@ -91,7 +91,7 @@ class Recorder:
         self.seen: dict[int, dict[str, Any]] = {}
 
 
-def make_objective(prog: dict[str, Any], rec: Recorder | None = None, sign: list[float] | None = None, distinct: bool = False) -> Any:
+def make_objective(prog: dict[str, Any], rec: Recorder | None = None, sign: list[float] | None = None, distinct: bool = False, dyadic: bool = False) -> Any:
     """sign[j] = -1 mirrors objective j (and, for single-objective programs, the reported
     intermediate values).  distinct=True adds number * 2**-20 so that values are pairwise distinct."""
     import optuna
@@ -122,7 +122,10 @@ def make_objective(prog: dict[str, Any], rec: Recorder | None = None, sign: list
                     f += c * num[n]
             outs.append(sign[j] * f)
         if prog["n_obj"] == 1 and prog["n_steps"]:
-            base = num.get(prog["curve_on"], 0.0) + float(prog["consts"][0]) + bump
+            base = num.get(prog["curve_on"], 0.0) + float(prog["consts"][0])
+            if dyadic:
+                base = math.floor(base * 8) / 8  # multiples of 1/8: exact percentile arithmetic
+            base += bump
             for s in range(prog["n_steps"]):
                 step = s * prog["step_gap"]
                 v = base + prog["slope"] * s
